@@ -17,6 +17,7 @@ import re
 from engine.bounds import Bounds
 from engine.cfg import CFG, relations
 from engine.extract import Request
+from engine.loops import bounds as loop_bounds
 from engine.loops import describe
 from engine.algebra import LocalDefs
 from engine.canon import decl_of, roles_for
@@ -30,6 +31,7 @@ def requests():
     return [
         Request(LM, fn=["stir::LmToProjData::process_data", "stir::LmToProjData::get_bin_from_event", "stir::LmToProjData::do_post_normalisation"], files=["/repo/src/listmode_buildblock/LmToProjData.cxx"]),
         Request(LL, fn=["stir::LM_distributable_computation"], files=[".*/recon_buildblock/distributable\\.txx"]),
+        Request(LL, fn=["stir::PoissonLogLikelihoodWithLinearModelForMeanAndListModeDataWithProjMatrixByBin::read_listmode_batch"]),
     ]
 
 
@@ -279,6 +281,134 @@ def rule_g(ctx, f):
     ctx.ob("C14.g-listmode-subsets", f.qn, "residue-class-of-view", ok, f.where(), "events are selected by " + det if ok else det)
 
 
+def rule_h_local_images_reach_output(ctx, f):
+    """LM_distributable_computation lets the call-back accumulate into per-thread images (a vector indexed by the thread number; one
+    element without OpenMP).  Whatever the configuration, those images must be ADDED to *output_image_ptr after the event loop, all of
+    them, on every path on which an output image was asked for - otherwise the list-mode gradient is lost (zero)."""
+    cfg = CFG(f)
+    outp = [p for p in f.params if "DiscretisedDensity" in p["t"] and "*" in p["t"] and "const" not in p["t"].split("*")[0]]
+    cbs = [c for c in f.walk() if c.k in ("CallExpr", "CXXOperatorCallExpr") and c.call_args() and len(c.call_args()) >= 5 and any(a.k in ("ForStmt",) for a in c.ancestors())]
+    # the call-back invocation: a call whose first argument dereferences an element of a local vector of image pointers
+    loc = None
+    for c in cbs:
+        a0 = c.call_args()[0].strip() if c.k == "CallExpr" else (c.c[1].strip() if len(c.c) > 1 else None)
+        if a0 is None:
+            continue
+        m = re.search(r"\*?\(?\*? ?(v\d+)\[", key(a0))
+        if m and "shared_ptr<DiscretisedDensity" in " ".join((x.type or "") for x in a0.walk()):
+            loc = (m.group(1), c)
+            break
+    if not outp or loc is None:
+        ctx.unrec(f.qn, "output image parameter or the per-thread image vector handed to the call-back not recognised")
+        return 0
+    ok_ = "v%d" % outp[0]["d"]
+    L, cb = loc
+    evloop = [a for a in cb.ancestors() if a.k == "ForStmt"][-1]
+    adds = [m for m in f.walk() if m.k in ("CompoundAssignOperator", "CXXOperatorCallExpr") and m.op == "+=" and len(m.c) >= 2 and key(m.c[-2].strip()) in ("*" + ok_, "(* %s)" % ok_) and L + "[" in key(m.c[-1].strip()) and m.i in cfg.pos]
+    ok, det = False, "no statement adds the per-thread images to *output_image_ptr"
+    if adds:
+        a = adds[0]
+        lp = [x for x in a.ancestors() if x.k == "ForStmt"]
+        b = loop_bounds(lp[0], None) if lp else None
+        whole = b is not None and b["init"] == "0" and re.search(r"%s\.size\(\)" % L, b["upper"]) is not None and str(b["step"]) == "1"
+        after = not any(x is evloop for x in a.ancestors()) and a.line > evloop.line
+        # reached on every path from the event loop to the exit on which an output image exists: the only guards allowed around it
+        # are `output != NULL` and `element is not null`
+        guards = [key(x.c[0].strip()) for x in a.ancestors() if x.k == "IfStmt"]
+        def guard_ok(g):
+            if g == ok_ or g.startswith("(!= %s " % ok_):
+                return True  # output image requested
+            return g.startswith("(! stir::is_null_ptr(%s[" % L)  # this thread filled something in
+
+        okg = all(guard_ok(g) for g in guards)
+        ok = whole and after and okg
+        det = "after the event loop every per-thread image is added to *output_image_ptr" if ok else "the addition of the per-thread images is not a loop over all of them after the event loop under `output != NULL` only (whole=%s after=%s guards=%s)" % (whole, after, guards)
+    ctx.ob("C14.h-accumulated-image-reaches-output", f.qn, "per-thread-images", ok, (adds[0] if adds else f).where(), det if ok else det + ": in this build configuration the image the call-back accumulated is dropped and the list-mode gradient is zero")
+    return 1
+
+
+def rule_i_additive_lookup_uses_event_coordinates(ctx, f):
+    """The additive term cached for an event is read from the piece of the additive data selected by loop variables (segment, TOF
+    bin): the assignment to the event's correction must be guarded by equality of EVERY such loop variable with the event's own
+    coordinate, and the element is subscripted with the event's remaining coordinates."""
+    n = 0
+    for m in f.walk():
+        if not (m.k in ("BinaryOperator", "CXXOperatorCallExpr") and m.op == "=" and len(m.c) >= 2):
+            continue
+        lhs = m.c[-2].strip()
+        if not (lhs.k == "MemberExpr" and lhs.get("n") == "my_corr"):
+            continue
+        rhs = m.c[-1].strip()
+        chain = _subscript_chain(rhs)
+        if chain is None:
+            continue
+        base, idx = chain
+        ev = key(lhs.c[0].strip()) if lhs.c else None
+        # the piece: a local initialised from get_segment_by_*(loopvar, loopvar)
+        vd = [x for x in f.walk() if x.k == "VarDecl" and x.get("d") == base.get("d")]
+        sel = []
+        if vd and vd[0].c:
+            for c in vd[0].c[0].walk():
+                if c.is_call() and re.search(r"get_segment_by_(view|sinogram)$", c.callee or ""):
+                    sel = [a.strip() for a in c.call_args() if a.strip().k == "DeclRefExpr" and "int" in (a.strip().type or "")]
+        if not sel or ev is None:
+            continue
+        conds = " ".join(key(a.c[0].strip()) for a in m.ancestors() if a.k == "IfStmt")
+        want = {0: "segment_num", 1: "timing_pos_num"}
+        missing = []
+        for j, lv in enumerate(sel):
+            acc = want.get(j)
+            if acc is None:
+                continue
+            if not re.search(r"\(== %s\.my_bin\.%s\(\) %s\)|\(== %s %s\.my_bin\.%s\(\)\)" % (re.escape(ev), acc, key(lv), key(lv), re.escape(ev), acc), conds):
+                missing.append(acc)
+        coords = [key(x) for x in idx]
+        inside = all(re.fullmatch(r"%s\.my_bin\.(view_num|axial_pos_num|tangential_pos_num)\(\)" % re.escape(ev), k_) for k_ in coords) and len(set(coords)) == 3
+        ok = not missing and inside
+        ctx.ob("C14.i-additive-term-of-the-event", f.qn, "cached-additive-term@%d" % n, ok, m.where(), "the additive term is read from the segment and TOF bin of the event, at its view / axial / tangential position" if ok else "the additive term of an event is read from a piece selected by loop variables that are not all compared with the event's own coordinates (missing: %s; element subscripts ok: %s): events get the value of another %s" % (", ".join(missing) or "-", inside, " / ".join(x.replace("_num", "").replace("timing_pos", "TOF bin") for x in missing) or "position"))
+        n += 1
+    return n
+
+
+def rule_j_batches_continue_with_the_clock(ctx, f):
+    """The cached list-mode objective reads the events of a frame in batches.  Batch 0 rewinds the stream (reset()) and starts its clock
+    at the initial value; a later batch continues in the stream where the previous one stopped and must continue with the clock as
+    well: on every path that reaches the reading loop WITHOUT the rewind, the clock variable (the local that is set from the time
+    records and compared with the frame start to skip events) has been assigned from saved state - otherwise the events between the
+    batch boundary and the next time record are judged with the initial clock and dropped when the frame starts after it."""
+    cfg = CFG(f)
+    clocks = [m for m in f.walk() if m.k == "BinaryOperator" and m.op == "=" and m.c[0].strip().k == "DeclRefExpr" and m.c[0].strip().get("dk") == "local" and "get_time_in_secs" in key(m.c[1].strip())]
+    if len(clocks) != 1:
+        ctx.unrec(f.qn, "clock variable (assigned from time records) not recognised")
+        return 0
+    T = clocks[0].c[0].strip().get("d")
+    tk = "v%d" % T
+    loop = [a for a in clocks[0].ancestors() if a.k in ("WhileStmt", "ForStmt", "DoStmt")]
+    rewinds = [c for c in f.calls() if (c.callee or "").endswith("::reset") and "list_mode_data_sptr" in key(c.c[0], True) and c.i in cfg.pos]
+    if not loop or not rewinds:
+        ctx.unrec(f.qn, "reading loop or stream rewind not recognised")
+        return 0
+    lp = loop[-1]
+    restores = [m for m in f.walk() if m.i in cfg.pos and m.k == "BinaryOperator" and m.op == "=" and key(m.c[0].strip()) == tk and not any(a is lp for a in m.ancestors()) and re.search(r"this\.", key(m.c[1].strip()))]
+    rid, wid = {m.i for m in restores}, {c.i for c in rewinds}
+    loop_ids = {m.i for m in lp.walk()}
+    w = cfg.paths_avoiding([(cfg.entry, -1)], lambda x: x.i in rid or x.i in wid, target_pred=lambda x: x.i in loop_ids, to_exit=False)
+    ok = w is None
+    ctx.ob("C14.j-batches-continue-with-the-clock", f.qn, "clock-at-batch-start", ok, (restores[0] if restores else f).where(), "a batch either rewinds the stream or restores the clock from saved state before reading" if ok else "a path reaches the reading loop without rewinding the stream and without restoring the clock (blocks %s): a later batch judges its first events with the initial clock value and drops them when the frame starts later" % w)
+    return 1
+
+
+def _subscript_chain(n):
+    idx = []
+    n = n.strip()
+    while n.k in ("CXXOperatorCallExpr", "ArraySubscriptExpr") and (n.k == "ArraySubscriptExpr" or n.op == "[]") and len(n.c) >= 2:
+        idx.insert(0, n.c[-1].strip())
+        n = n.c[-2].strip()
+    if n.k == "DeclRefExpr" and idx:
+        return n, idx
+    return None
+
+
 def run(ctx):
     ctx.explanation = (
         "Decides for LmToProjData::process_data: (a) the segment and TOF batch loops step by their window width with window end "
@@ -311,6 +441,16 @@ def run(ctx):
         ctx.fail_broken("anchor LM_distributable_computation not found")
     else:
         rule_g(ctx, lm[0])
+        rule_h_local_images_reach_output(ctx, lm[0])
+        ctx.require_count("C14.h-accumulated-image-reaches-output", 1)
+    rb = [f for f in us[2].functions if f.short == "read_listmode_batch" and f.body is not None and not f.is_dependent] or [f for f in us[2].functions if f.short == "read_listmode_batch" and f.body is not None]
+    if not rb:
+        ctx.fail_broken("anchor read_listmode_batch not found")
+    else:
+        rule_i_additive_lookup_uses_event_coordinates(ctx, rb[0])
+        ctx.require_count("C14.i-additive-term-of-the-event", 1)
+        rule_j_batches_continue_with_the_clock(ctx, rb[0])
+        ctx.require_count("C14.j-batches-continue-with-the-clock", 1)
     ctx.require_count("C14.a-batches-partition", 6)
     ctx.require_count("C14.c-store-bounded", 4)
     ctx.require_count("C14.d-increment", 3)
